@@ -259,6 +259,31 @@ def truncate_string(string, max_length):
     return string[:max_length], len(string) > max_length
 
 
+class VariableParent(ParentNode):
+    """
+    The parent node that attaches the children it is given to a collected variable.
+
+    This is a module level type: a class is a reference cycle, so creating it for every variable (closing over the
+    collector) left the collector - and with it the values of the paused frame that it keeps alive - to the garbage
+    collector, and the application's objects were finalised later than they are without us.
+    """
+
+    def __init__(self, var_collector: Collector, variable_id: str):
+        """
+        Create a new parent node.
+
+        :param var_collector: the collector we are using
+        :param variable_id: the variable id to attach children to
+        """
+        self.__var_collector = var_collector
+        self.__variable_id = variable_id
+
+    def add_child(self, child: VariableId):
+        """Attach a child to the variable."""
+        # look for the child in the lookup and add this id to it
+        self.__var_collector.append_child(self.__variable_id, child)
+
+
 def process_child_nodes(
         var_collector: Collector,
         variable_id: str,
@@ -285,15 +310,10 @@ def process_child_nodes(
     if frame_depth + 1 >= var_collector.max_var_depth:
         return []
 
-    class VariableParent(ParentNode):
-
-        def add_child(self, child: VariableId):
-            # look for the child in the lookup and add this id to it
-            var_collector.append_child(variable_id, child)
-
     # scan the child based on type
     try:
-        return find_children_for_parent(var_collector, VariableParent(), var_value, variable_type)
+        return find_children_for_parent(var_collector, VariableParent(var_collector, variable_id), var_value,
+                                        variable_type)
     except BaseException:
         # looking for children can run user code (e.g. __getattribute__, __iter__), if that fails we keep the
         # variable we have and collect no children for it
